@@ -205,8 +205,19 @@ def translate():
          r"self\.with_dummy_segment\(\|s\| s\.emit_tokens\(&if_\.inner\)\)\?; \} "
          r"if let Some\(e\) = else_ \{ if !emit_if \{ self\.emit_tokens\(&e\.inner\)\?; \}", iff, "if arm")
 
+    # ---- instruction arm: what a branch that is too far leaves behind before the error
+    ins = norm(between(cg, r"Token::Instruction\(i\) => \{", r"Token::Label \{", "instruction arm"))
+    m = re.search(r"\} else \{ (?:self\.emit\(full_span, &\[([0-9, ]*)\]\)\?; )?return Err\(Diagnostic::error\(\) \.with_message\(format!\( \"branch too far", ins)
+    if not m:
+        raise ShapeError("instruction arm: 'branch too far' exit has unrecognised shape")
+    too_far = [int(x) for x in (m.group(1) or "").replace(" ", "").split(",") if x]
+    need(r"match get_opcode_bytes\(i\.mnemonic\.data, am, suffix, value\) \{ Ok\(bytes\) => self\.emit\(full_span, &bytes\)\?, "
+         r"Err\(\(\)\) => \{ self\.emit\(full_span, &\[0\]\)\?; return Err\(", ins, "instruction arm: emission")
+    need(r"\} else \{ self\.emit\(full_span, &\[\]\)\?; \} \}$", ins, "instruction arm: unresolved operand emits nothing")
+
     lines = ["(* GENERATED by translate/t_codegen.py from mos-core/src/codegen/{mod,segment}.rs. DO NOT EDIT. *)",
-             "From Coq Require Import ZArith.", "Open Scope Z_scope."]
+             "From Coq Require Import List NArith ZArith.", "Import ListNotations.", "Open Scope Z_scope.",
+             "Definition branch_too_far_bytes : list N := [%s]%%N." % "; ".join(str(x) for x in too_far)]
     for k in ["segment_default_initial_pc", "segment_default_target_address", "emit_start_limit", "emit_end_limit", "default_pc",
               "loop_first_index", "align_padding_cap", "max_iterations"]:
         lines.append("Definition %s : Z := %d." % (k, out[k]))
